@@ -73,6 +73,9 @@ def gen_plan(seed, tier="quick", variant=None):
     if variant == "bc":
         for _ in range(rng.choice([0, 0, 1, 2, 4])):
             ops.append({"t": round(rng.random() * horizon * 1.3, 6), "op": "cancel", "id": rng.choice(ids)})
+            if rng.random() < 0.3:
+                # the id of a cancelled request is not free while its reply may still arrive
+                ops.append({"t": round(ops[-1]["t"] + rng.choice([0.0, 0.0005, 0.005]), 6), "op": "dup", "id": ops[-1]["id"]})
         for _ in range(rng.choice([0, 0, 0, 1, 2])):
             ops.append({"t": round(rng.random() * horizon * 1.3, 6), "op": "disconnect"})
         if rng.random() < 0.25:
@@ -134,7 +137,7 @@ def gen_plan(seed, tier="quick", variant=None):
         peer.append({"nth": k, "acts": acts})
     connects = []
     for k in range(rng.choice([0, 0, 1, 2, 5])):
-        connects.append({"nth": rng.randint(0, 6), "kind": rng.choice(["refused", "refused", "blackhole", "dns", "ignore_cancel"])})
+        connects.append({"nth": rng.randint(0, 6), "kind": rng.choice(["refused", "refused", "blackhole", "dns", "ignore_cancel", "sync_fail"])})
     cuts = []
     for _ in range(rng.choice([0, 0, 1, 1, 2, 3])):
         cuts.append({"conn": rng.randint(0, 3), "dir": rng.choice(["s2c", "s2c", "c2s"]),
@@ -542,9 +545,12 @@ def _run_bc(plan):
         elif kind == "dup":
             rid = o["id"]
             w = watches.get(rid)
-            if w is None or rid in actual:
+            if w is None or (rid in actual and rid not in model.table):
                 return
-            # in flight right now: a second makeRequest with that id must raise and disturb nothing
+            if rid in actual:
+                res.probe("duplicate_of_cancelled_but_written_request")
+            # in flight right now (or written, cancelled and still awaiting its reply): a second makeRequest with that id
+            # must raise and disturb nothing
             frame = _request_bytes(rid, True, 1)
             pre = model.op_req(sim.now, rid, True, frame)
             try:
